@@ -347,10 +347,12 @@ pub fn analyze_capped(text: &str, cap: usize) -> Result<Analysis, String> {
                 if merge_like && matches!(st.ctx.last(), Some(Ctx::Map { .. })) && map_alias_seen.last().copied().unwrap_or(false) {
                     alias_then_merge = true;
                 }
-                // a *tagged* `<<` is not a merge key when raw; when replayed the tag is not visible
-                // to the budget, so recorded copies are "merge-like"
+                // a *tagged* `<<` is not a merge key, neither raw nor when it is replayed through
+                // an alias (the recorded copy keeps its tag; the library did lose it before
+                // fix b140086, and this model followed it until the tagged-anchor documents
+                // were added to the small-document family)
                 let raw_ev = LEv::Scalar { len: v.len(), merge_like: is_merge };
-                let rec_ev = LEv::Scalar { len: v.len(), merge_like };
+                let rec_ev = LEv::Scalar { len: v.len(), merge_like: is_merge };
                 // count as raw, but record the replay view
                 st.bump_event(hit);
                 st.u.nodes += 1;
